@@ -121,7 +121,7 @@ impl Borrows {
 
 /// One listed instantiation.
 pub trait Case {
-    type T: SerializeInner + DeserializeInner;
+    type T: SerializeInner + DeserializeInner + TypeHash + AlignHash;
     /// Number of enumerated shapes (sequence lengths / UTF-8 width classes that
     /// are concrete per harness instance; everything else is symbolic).
     const SHAPES: usize = 1;
